@@ -8,7 +8,7 @@ from .common import parse_kv
 GOALS = ("halt", "blank", "spin_out")
 
 
-def program_stream(tier, seed, quick_random=6000, thorough_random=60000, exhaustive_big=True):
+def program_stream(tier, seed, quick_random=20000, thorough_random=60000, exhaustive_big=True):
     """yield lists (chunks) of program texts"""
     rng = random.Random(seed * 1000003 + 4)
     yield "2x2", list(core.all_progs(2, 2, first_defined=True))
@@ -26,7 +26,7 @@ def program_stream(tier, seed, quick_random=6000, thorough_random=60000, exhaust
             for k in range(nchunks):
                 yield f"{s}x{c}-all-{k}", list(core.all_progs(s, c, first_defined=True, stride=nchunks, offset=k))
         else:
-            stride = 97
+            stride = 37
             yield f"{s}x{c}-slice", list(core.all_progs(s, c, first_defined=True, stride=stride, offset=seed % stride))
 
 
